@@ -354,6 +354,24 @@ func init() {
 		"trunc": func(e *Env, args []ast.Expr) Value {
 			return Scalar{UF("f2i", SInt, e.toTerm(e.eval(args[0])))}
 		},
+		// tofloat(x): the float64 a decimal rendering of the integer x is read back as (the nearest
+		// double). Assumed with it - IEEE 754 binary64, 53-bit significand, for |x| < 2^64: reading the
+		// double back as an integer gives x exactly when x is representable, i.e. when |x| <= 2^53
+		// or x is a multiple of 2^(j+1) for 2^(53+j) < |x| <= 2^(54+j).
+		"tofloat": func(e *Env, args []ast.Expr) Value {
+			x := e.toTerm(e.eval(args[0]))
+			f := UF("i2f", SInt, x)
+			back := UF("f2i", SInt, f)
+			ax := Ite(Le(Int(0), x), x, Sub(Int(0), x))
+			p53 := IntB(Pow2(53))
+			e.st.assume(Implies(Le(ax, p53), Eq(back, x)))
+			for j := uint(0); j <= 10; j++ {
+				lo, hi := IntB(Pow2(53+j)), IntB(Pow2(54+j))
+				e.st.assume(Implies(And(Lt(lo, ax), Le(ax, hi)),
+					Eq(Eq(back, x), Eq(Mod(x, IntB(Pow2(j+1))), Int(0)))))
+			}
+			return Scalar{f}
+		},
 		// contains(a, b): string b occurs in string a
 		"contains": func(e *Env, args []ast.Expr) Value {
 			a := e.toTerm(e.eval(args[0]))
